@@ -127,3 +127,55 @@ Theorem no_background_inside_extent :
     ~ (gx0 g + r <= tx0 + j * r /\ tx0 + (j + 1) * r <= gx1 g - r /\
        gy0 g + r <= ty1 - (k + 1) * r /\ ty1 - k * r <= gy1 g - r).
 Proof. exact no_background_lemma. Qed.
+
+(* Requests on a cache that already holds tiles (partially cached meta tiles left behind by another meta size, by
+   minimize_meta_requests or by removals, with or without their main tile): only the missing tiles are created,
+   every creation step re-checks under the lock whether ALL tiles of its meta tile are cached; every requested
+   valid tile is afterwards cached - it was before or it is handed to a store call. *)
+Theorem request_on_any_cache_produces_every_tile :
+  forall m has_meta minimize bulk cached (tiles : list coord) z plan,
+    mwf m -> (forall c, In c tiles -> valid_tile m c /\ snd c = z) ->
+    plan_with_cache m has_meta minimize bulk cached tiles = Some plan ->
+    forall c, In c tiles -> In c cached \/ In c (flat_map snd plan).
+Proof. exact plan_with_cache_produces. Qed.
+
+(* meta_stores_all: in the meta tile strategy every creation step consists of exactly one upstream request - that
+   of the meta tile of a requested tile - and its store call receives all tiles of that meta tile's pattern (by
+   pattern_complete and pattern_unique: exactly the valid tiles of the block, once each). *)
+Theorem meta_stores_all :
+  forall m minimize (tiles : list coord) plan st,
+    minimize && (1 <? Z.of_nat (length tiles)) = false ->
+    create_plan m true minimize false tiles = Some plan -> In st plan ->
+    exists x y z, In (x, y, z) tiles /\
+      st = ([(mt_bbox (meta_tile m x y z), mt_size (meta_tile m x y z))], mt_tiles (meta_tile m x y z)).
+Proof. exact meta_stores_all_lemma. Qed.
+
+(* All four bands: for a colour picture (alpha between 1 and 254 on a transparent cache, three bands on an opaque one)
+   the pixel stored for a tile cut out of its meta tile equals the pixel stored for the tile fetched alone when no
+   buffer is cut off (TileSplitter copies the bands unchanged; padding is the background colour). *)
+Theorem meta_tile_colour_equals_tile_fetched_alone :
+  forall m q transparent cx cy z j k,
+    mwf m -> valid_level (mg_grid m) z = true -> 0 < q ->
+    0 <= cx < fst (grid_size (mg_grid m) z) -> 0 <= cy < snd (grid_size (mg_grid m) z) ->
+    no_buffer_cut m cx cy z ->
+    0 <= j < tw (mg_grid m) -> 0 <= k < th (mg_grid m) ->
+    model_colour m q HowMeta transparent (cx, cy, z) j k = model_colour m q HowSingle transparent (cx, cy, z) j k.
+Proof. exact meta_colour_equals_single. Qed.
+
+(* Pixel-value form of "within one pixel": whatever is cut off at the grid border, a pixel (j, k) of a tile cut out
+   of a meta tile that is not padding shows the upstream picture at a ground position that differs from the position
+   the same pixel of the tile fetched alone shows (its centre) by at most half a pixel horizontally and at most one
+   pixel vertically.  (Positions scaled by 2W and 2H:  X_meta = minx + (2c+1)(maxx-minx)/(2W),  X_alone = tx0 + (2j+1)r/2,
+   Y_meta = maxy - (2rr+1)(maxy-miny)/(2H),  Y_alone = ty1 - (2k+1)r/2.) *)
+Theorem stored_pixel_within_one_pixel :
+  forall m x y z cx cy cz px py j k c rr,
+    mwf m -> valid_level (mg_grid m) z = true ->
+    In (Some (cx, cy, cz), (px, py)) (mt_pattern (meta_tile m x y z)) ->
+    tile_pixel_src (px, py) (tw (mg_grid m), th (mg_grid m)) (mt_size (meta_tile m x y z)) j k = Some (c, rr) ->
+    let r := res_at (mg_grid m) z in
+    let '(minx, miny, maxx, maxy) := mt_bbox (meta_tile m x y z) in
+    let '(W, H) := mt_size (meta_tile m x y z) in
+    let '(tx0, ty0, tx1, ty1) := tile_bbox (mg_grid m) cx cy cz in
+    - (W * r) <= (2 * c + 1) * (maxx - minx) + 2 * W * minx - W * (2 * tx0 + (2 * j + 1) * r) <= W * r /\
+    - (2 * H * r) <= 2 * H * maxy - (2 * rr + 1) * (maxy - miny) - H * (2 * ty1 - (2 * k + 1) * r) <= 2 * H * r.
+Proof. exact stored_pixel_within_one_pixel_lemma. Qed.
